@@ -1127,7 +1127,7 @@ def run(tier, seed, replay=None):
             items.append({"id": "gen%d" % i, "src": src, "histories": _histories(rng, A, 2 if quick else 3, 3 if quick else 4),
                           "continuations": cs, "picks": [0] if i % 4 else [0, 1]})
     nw = min(C.NPROC, max(1, len(items)))
-    budget = 110 if quick else 900
+    budget = 85 if quick else 900
     procs = []
     for w in range(nw):
         job = {"items": items[w::nw], "budget_s": budget}
